@@ -148,10 +148,11 @@ func usedElement(t vlib.TB, g group.Group, entry, sub string, b []byte) {
 			if !o.accepted {
 				return
 			}
-			u, err1 := e.MarshalBinary()
-			c, err2 := e.MarshalBinaryCompress()
+			// arithmetic first: marshalling may normalise the element
 			d, _ := g.NewElement().Dbl(e).MarshalBinary()
 			a, _ := g.NewElement().Add(e, g.Generator()).MarshalBinary()
+			u, err1 := e.MarshalBinary()
+			c, err2 := e.MarshalBinaryCompress()
 			o.views = [][]byte{u, c, d, a}
 			o.flags = []bool{err1 == nil, err2 == nil, e.IsIdentity()}
 			if freshVal != nil {
